@@ -2,7 +2,15 @@
 
 package main
 
-// extraMain dispatches the subcommands of C25 / C27 (added as they are built).
+// extraMain dispatches the subcommands of C25 / C27.
 func extraMain(cmd string) bool {
-	return false
+	switch cmd {
+	case "put":
+		putMain()
+	case "put-replay":
+		putReplay()
+	default:
+		return false
+	}
+	return true
 }
